@@ -169,8 +169,31 @@ Definition chk_leak (c : case) : bool :=
    unless an abandon of a still-offered call with that digest removed it or an earlier decision consumed it;
    streams that were ended (malformed decision, receive error) deliver nothing *)
 Record xst := { x_pend : list (bytes * N); x_offered : list N; x_digs : list (N * bytes); x_ended : list N;
+                x_calling : list (N * (N * Z));   (* stream parked between lookup and callback: call, status *)
                 x_expect : list (N * Z) }.
-Definition x_init : xst := {| x_pend := []; x_offered := []; x_digs := []; x_ended := []; x_expect := [] |}.
+Definition x_init : xst := {| x_pend := []; x_offered := []; x_digs := []; x_ended := []; x_calling := []; x_expect := [] |}.
+Definition x_with (x : xst) pend offered digs ended calling expect : xst :=
+  {| x_pend := pend; x_offered := offered; x_digs := digs; x_ended := ended; x_calling := calling; x_expect := expect |}.
+(* the two halves of a decision on stream sid; a parked or ended stream reads nothing *)
+Definition x_lookup (x : xst) (sid : N) (d : bytes) (st : Z) : xst :=
+  if existsb (N.eqb sid) (x_ended x) then x
+  else match nget sid (x_calling x) with
+       | Some _ => x
+       | None =>
+           if provider_response_ok d st then
+             match pget d (x_pend x) with
+             | Some h => x_with x (pdel d (x_pend x)) (x_offered x) (x_digs x) (x_ended x)
+                                ((sid, (h, st)) :: x_calling x) (x_expect x)
+             | None => x
+             end
+           else x_with x (x_pend x) (x_offered x) (x_digs x) (sid :: x_ended x) (x_calling x) (x_expect x)
+       end.
+Definition x_callback (x : xst) (sid : N) : xst :=
+  match nget sid (x_calling x) with
+  | Some hs => x_with x (x_pend x) (x_offered x) (x_digs x) (x_ended x)
+                      (filter (fun e => negb (fst e =? sid)) (x_calling x)) (hs :: x_expect x)
+  | None => x
+  end.
 Definition x_step (x : xst) (o : op) : xst :=
   match o with
   | OSubmit h b =>
@@ -178,32 +201,27 @@ Definition x_step (x : xst) (o : op) : xst :=
       | Some _ => x
       | None =>
           if ebid_ok (to_engine b)
-          then {| x_pend := pset (b_dig b) h (x_pend x); x_offered := h :: x_offered x;
-                  x_digs := (h, b_dig b) :: x_digs x; x_ended := x_ended x; x_expect := x_expect x |}
-          else {| x_pend := x_pend x; x_offered := x_offered x; x_digs := (h, b_dig b) :: x_digs x;
-                  x_ended := x_ended x; x_expect := x_expect x |}
+          then x_with x (pset (b_dig b) h (x_pend x)) (h :: x_offered x) ((h, b_dig b) :: x_digs x) (x_ended x)
+                      (x_calling x) (x_expect x)
+          else x_with x (x_pend x) (x_offered x) ((h, b_dig b) :: x_digs x) (x_ended x) (x_calling x) (x_expect x)
       end
-  | OTake h => {| x_pend := x_pend x; x_offered := filter (fun y => negb (y =? h)) (x_offered x); x_digs := x_digs x;
-                  x_ended := x_ended x; x_expect := x_expect x |}
+  | OTake h => x_with x (x_pend x) (filter (fun y => negb (y =? h)) (x_offered x)) (x_digs x) (x_ended x)
+                      (x_calling x) (x_expect x)
   | OAbandon h =>
       match existsb (N.eqb h) (x_offered x), nget h (x_digs x) with
-      | true, Some d => {| x_pend := pdel d (x_pend x); x_offered := filter (fun y => negb (y =? h)) (x_offered x);
-                           x_digs := x_digs x; x_ended := x_ended x; x_expect := x_expect x |}
+      | true, Some d => x_with x (pdel d (x_pend x)) (filter (fun y => negb (y =? h)) (x_offered x)) (x_digs x)
+                               (x_ended x) (x_calling x) (x_expect x)
       | _, _ => x
       end
-  | ODecision sid d st | OLookup sid d st =>
-      if existsb (N.eqb sid) (x_ended x) then x
-      else if provider_response_ok d st then
-        match pget d (x_pend x) with
-        | Some h => {| x_pend := pdel d (x_pend x); x_offered := x_offered x; x_digs := x_digs x;
-                       x_ended := x_ended x; x_expect := (h, st) :: x_expect x |}
-        | None => x
-        end
-      else {| x_pend := x_pend x; x_offered := x_offered x; x_digs := x_digs x; x_ended := sid :: x_ended x;
-              x_expect := x_expect x |}
-  | ORecvErr sid => {| x_pend := x_pend x; x_offered := x_offered x; x_digs := x_digs x; x_ended := sid :: x_ended x;
-                       x_expect := x_expect x |}
-  | OTakeNone | OCallback _ => x
+  | ODecision sid d st => x_callback (x_lookup x sid d st) sid
+  | OLookup sid d st => x_lookup x sid d st
+  | OCallback sid => x_callback x sid
+  | ORecvErr sid =>
+      match nget sid (x_calling x) with
+      | Some _ => x
+      | None => x_with x (x_pend x) (x_offered x) (x_digs x) (sid :: x_ended x) (x_calling x) (x_expect x)
+      end
+  | OTakeNone => x
   end.
 Definition expected_deliveries (l : list op) : list (N * Z) := x_expect (fold_left x_step l x_init).
 
